@@ -963,7 +963,6 @@ FILE_WITNESSES = [
     ("K2-method-decorator", "target.py", "d = [1]\nclass C:\n    @d[0]\n    def m(self):\n        pass\n"),
     ("K7-call-spec", "target.py", "from rattr.analyser.annotations import rattr_results\n@rattr_results(calls=[('f', (['a'], ['b']))])\ndef g(a):\n    pass\n"),
     ("K11-def-then-class", "target.py", "def C(a):\n    return a.x\nclass C:\n    def __init__(self, q):\n        self.q = q\n"),
-    ("K11-class-in-match", "target.py", "v = 1\nmatch v:\n    case 1:\n        class M:\n            def __init__(self, q):\n                self.q = q\n"),
     ("K11-builtin-name", "target.py", "class list:\n    def __init__(self, q):\n        self.q = q\n"),
     ("K3-in-function", "target.py", "def f(xs):\n    return sorted(xs, key=lambda a, b: a.k)\n"),
     ("K22-sorted", "target.py", "def f(xs, q):\n    return sorted(xs, key=lambda getattr: getattr(q, 'x').m)\n"),
@@ -973,6 +972,11 @@ FILE_WITNESSES = [
                                    "lam2 = lambda p: p.q\ndef top(a, b):\n    return sorted(a.xs, key=lambda w: w.k) + [K(b).v, K.sm(a), ff(b), lam2(a), (a + b).m(1, b)]\n"),
     ("control-fatal", "target.py", "def f(a):\n    import json\n    (a + 1).c = 2\n"),
     ("control-class-no-init", "target.py", "def C(a):\n    return a.x\nclass C:\n    z = 1\n"),
+    # K11m / K11t, fixed in /repo 6e8e4cc (visit_Match, visit_TryStar): now controls — the class gets its symbol
+    ("control-K11m-class-in-match", "target.py", "v = 1\nmatch v:\n    case 1:\n        class M:\n            def __init__(self, q):\n                self.q = q\n"
+                                                  "def use(a):\n    return M(a)\n"),
+    ("control-K11t-class-in-try-except-star", "target.py", "try:\n    class T:\n        def __init__(self, q):\n            self.q = q\nexcept* ValueError:\n"
+                                                            "    class U:\n        def __init__(self, q):\n            self.q = q\ndef use(a):\n    return T(a), U(a)\n"),
 ]
 
 
@@ -988,7 +992,7 @@ def file_tie(rng, n_modules, res, model):
     work = [(n, t, src) for n, t, src in FILE_WITNESSES]
     work += [(None, t, src) for t, src in filegen.CURATED + filegen.PIPELINE_CURATED]
     # round 4: definitions of every kind at every module-level block position (the builder must register what the
-    # FileAnalyser reaches: `for … else`, `while … else`, `try … finally`, `with`, … ; `match` / `except*` are K11m / K11t)
+    # FileAnalyser reaches: `for … else`, `while … else`, `try … finally`, `with`, `match` cases, `except*`, … — K11m / K11t were fixed in /repo 6e8e4cc)
     work += c07blocks.tie_modules(rng, "quick")
     for i in range(n_modules):
         gen = filegen.gen_pipeline_module if i % 2 == 0 else filegen.gen_file_module
@@ -1405,7 +1409,7 @@ def run(tier, seed, build):
         "the ImportError of resolve_import and the ValueError of the relative-import visitors are signed by cause: a second run prints the raising frame's locals (module name, keys of import_irs, current file); the class is then decided by facts rattr does not compute (origin path and real path of each module by a plain directory walk of sys.path, the import statements of the project files by ast, Python's identifier rule)",
         "show_stats divides by the sum of five perf_counter differences; that the sum is not 0.0 is an assumption of C07_show_stats_no_crash (the first timer spans opening and reading the target)",
         "[interp] the environment of the process (PYTHONIOENCODING, locale) is part of 'every option combination' in the wide reading: a stdout that cannot carry a character is a configuration a user can be in; rattr must then still end with well-formed output or its own diagnostic (K26 is the one place where it does not)",
-        "the signature family `unhandled:ValueError:ClassAnalyser.symbol@<visitor>` is refined by cause read off the project SOURCE: the class named in the message, the chain of enclosing block kinds of its definition (collapsed to `within:match-case` / `within:try-except-star` below such a block — two known findings — and spelled out in full everywhere else) and what else binds its name",
+        "the signature family `unhandled:ValueError:ClassAnalyser.symbol@<visitor>` is refined by cause read off the project SOURCE: the class named in the message, the chain of enclosing block kinds of its definition (collapsed to `within:match-case` / `within:try-except-star` below such a block — the two findings K11m / K11t, fixed in /repo 6e8e4cc: the signatures are kept so that an older tree or a regression reports them — and spelled out in full everywhere else) and what else binds its name",
         "(v) module tie: the Lean predicates NoCrashShapeFile / NoCrashShapePipeline on every generated single-file module vs the real stages run in-process: NoCrashShapeFile => the real compile_root_context and FileAnalyser do not raise and rattr.__main__.main raises at most ValueError / ImportError; NoCrashShapePipeline => rattr.__main__.main does not raise at all; a failure of either implication is reported as a disagreement (model error)",
     ]
     return res
